@@ -174,6 +174,22 @@ def r2(db, rep, cache):
         if nreads == 0:
             r.bad("%s|consults" % root, db.where(db.mir[root]), "chain builder never reads the reaching definitions")
     r.floor(2, "one in-state read reachable from each chain builder")
+    # the helper computing the in-state yields Ok only after consulting backward(): no shortcut for special locations
+    helper = RD + "::reaching_definitions_in"
+    if helper in db.mir:
+        body = db.mir[helper]
+        cfg = Cfg(body)
+        bw = [i for i, t in mir_calls(body) if last_seg(mir_callee(t) or "") == "backward"]
+        oks = []
+        for i, b in enumerate(body["blocks"]):
+            for s in b["s"]:
+                rv = s.get("rv")
+                if rv and rv["k"] == "Aggregate" and rv.get("variant") == "std::prelude::v1::Ok" and s["d"] == [0]:
+                    oks.append(i)
+        good = bool(bw) and bool(oks) and all(any(cfg.dominates(b_, o) for b_ in bw) for o in oks)
+        r.decide(good, "in_state|unconditional", db.where(body),
+                 "reaching_definitions_in returns a result on a path that never consulted backward() (a shortcut for "
+                 "some location: definitions carried around a loop into that location are lost)")
 
 
 def r3(db, rep):
